@@ -297,7 +297,7 @@ def failing_indices(prop, cases, obs, scratch, tag):
     if getattr(prop, "USES_COQ", True) and live:
         bad = set(live[j] for j in evaluate(prop, [cases[i] for i in live], [obs[i] for i in live], scratch, tag=tag))
     for i, o in enumerate(obs):
-        if isinstance(o, dict) and o.get("pred_fail"):
+        if isinstance(o, dict) and (o.get("pred_fail") or o.get("corr_fail")):
             bad.add(i)
     return sorted(bad)
 
@@ -433,14 +433,26 @@ def run(prop, args, seed, scratch, t0):
                 model_txt = rest.strip()[:4000]
             except Exception as e:  # pylint: disable=broad-except
                 model_txt = "model evaluation failed: %s" % e
+        # Where the compared observable is finer than what the property states (internal enumeration counts of C16), a
+        # disagreement on which the property's own predicate still holds is a broken correspondence, not a failing input.
+        suffix, drift = "", False
+        if hasattr(prop, "is_property_failure") and not (isinstance(small_obs, dict) and small_obs.get("harness_fail")):
+            try:
+                drift = not prop.is_property_failure(small, small_obs)
+            except Exception:  # pylint: disable=broad-except
+                drift = False
+        if drift:
+            suffix = " no-failing-input-found"
         rp = write_replay(prop, {
+            "correspondence_only": ("the implementation no longer matches the model on this input (correspondence %s), but the property's own "
+                                    "predicate holds on it: no failing input was found" % getattr(prop, "CHECK_FN", "")) if drift else None,
             "tier": tier, "seed": seed, "case_index": i, "generator_stream": streams[i], "input": small,
             "original_input": cases[i] if small != cases[i] else None,
             "implementation": small_obs, "model": {"value": model_txt, "theorems": getattr(prop, "THEOREMS_NOTE", "")},
             "kind": "disagreement between implementation and proven model" if not (isinstance(small_obs, dict) and small_obs.get("pred_fail")) else "property predicate fails on the implementation",
         })
-        if (rp, "") not in violations:
-            violations.append((rp, ""))
+        if (rp, suffix) not in violations:
+            violations.append((rp, suffix))
         reported += 1
     seen_kf = set()
     for kf, c in known_hits:
